@@ -522,10 +522,22 @@ def main():
         print(__doc__)
         return 2
     if a[0] == "--setup":
+        # build what the claimed checks need (closure of each props file + its driver)
         os.makedirs(WORK, exist_ok=True)
-        ok, stage, out = build_all()
-        log(stage, out[-3000:])
-        return 0 if ok else 1
+        rc = 0
+        for cp in sorted(glob.glob(os.path.join(V, "checks", "C*.json"))):
+            pid = os.path.basename(cp)[:-5]
+            with open(cp) as f:
+                cfg = json.load(f)
+            if cfg.get("not_applicable"):
+                continue
+            t0 = time.time()
+            ok, stage, out = build_all(pid, (cfg.get("driver") or {}).get("name"))
+            log("setup %s: %s (%.0fs)" % (pid, "ok" if ok else "FAILED at " + stage, time.time() - t0))
+            if not ok:
+                log(out[-3000:])
+                rc = 1
+        return rc
     if a[0] == "--replay":
         with open(a[1]) as f:
             print(f.read())
